@@ -14,6 +14,11 @@ Oracle per run: plain-Python closed-form log likelihood / gradient / Hessian / B
 iteration and an active-set enumeration (all 3^K active sets) for the reference optimum in the box.
 History part: [estimate(run_bootstrap=True) with every resample of a family owned through numpy.random.randint,
 then calculate_likelihood(x*)] must reproduce the reported final log likelihood.
+Operation histories on ONE BIOGEME object: every sequence in normal form of depth 3 (thorough: 3 over a wide, 4 over a
+narrow alphabet) of {estimate, quick_estimate, calculate_likelihood_and_derivatives / calculate_likelihood at another
+point, set tolerance, set max_iterations, set optimization_algorithm}; every estimation in the history is judged with the
+options in force when it was launched, and after every operation every results object obtained earlier must still
+report the likelihood, gradient, Hessian and BHHH at its own estimates.
 """
 from __future__ import annotations
 
@@ -28,9 +33,12 @@ LEVEL = 'exploration'
 TECHNIQUE = ('bounded exhaustive enumeration of (concave model template x every table of a finite family x '
              'algorithm name/option variant x bound configuration x start x entry point) executed on the real '
              'estimate()/quick_estimate(), compared with a plain-Python closed-form likelihood, derivatives and an '
-             'active-set/Newton reference optimum; bootstrap resamples owned and enumerated')
+             'active-set/Newton reference optimum; bootstrap resamples owned and enumerated; every operation history '
+             '(estimations, evaluations, option setters) of bounded depth on one object, each estimation judged with the '
+             'options in force, every earlier results object re-read after every operation')
 RULE = ('one case per real estimation run (model, table, bound configuration, start, algorithm variant, entry point) '
-        'and one per (table, resample vector) bootstrap history; a case is non-trivial when the table was accepted '
+        'and one per (table, resample vector) bootstrap history and one per (table, bounds, construction options, '
+        'operation sequence) object history; a case is non-trivial when the table was accepted '
         'by the reference (finite, well conditioned interior maximum) and the run returned results; '
         'distinct = distinct (model, table, bounds, start, algorithm variant, entry point[, resample]) keys. '
         'Rejected tables (separation / ill conditioning) are counted, never sent to the library.')
@@ -51,6 +59,11 @@ ASSUMPTIONS = [
     'the external optimisers (biogeme_optimization, scipy L-BFGS-B) and the engine arithmetic are exercised, not repaired; '
     'quick_estimate() does not write the estimates back to the formulas and a second estimate() on the same object '
     'restarts from the original start: both observed and counted, not demanded',
+    'object histories: normal form = ends with an observable operation, contains an estimation, never sets one option twice '
+    'in a row; a re-estimation may start from the original start or from the estimates of any earlier estimate() of the '
+    'history (initLogLike must be the likelihood at one of them; the loosest of them scales the gradient tolerance); '
+    'max_iterations is not forwarded to scipy (counted, not demanded); steptol and the other trust-region options are not '
+    'changed inside histories',
 ]
 ANCHOR_FILES = ['src/biogeme/biogeme.py', 'src/biogeme/optimization.py', 'src/biogeme/negative_likelihood.py',
                 'src/biogeme/results.py']
@@ -427,7 +440,8 @@ def clip_start(s, lb, ub):
 
 
 # =========================================================================== the real thing
-def build_biogeme(tpl, rows, start, lb, ub, variant, share=True, boot_samples=None, as_dict=False, panel=False):
+def build_biogeme(tpl, rows, start, lb, ub, variant, share=True, boot_samples=None, as_dict=False, panel=False,
+                  overrides=None):
     """start/lb/ub are given over the FREE parameters in template order."""
     import pandas as pd
     import biogeme.biogeme as bb
@@ -481,6 +495,7 @@ def build_biogeme(tpl, rows, start, lb, ub, variant, share=True, boot_samples=No
     kw = dict(generate_html=False, generate_pickle=False, save_iterations=False, number_of_threads=1,
               optimization_algorithm=algo)
     kw.update(extra)
+    kw.update(overrides or {})
     if boot_samples is not None:
         kw['bootstrap_samples'] = boot_samples
     formulas = {'loglike': ll, 'weight': Variable('WG')} if as_dict else ll
@@ -501,9 +516,43 @@ def _r(v, nd=9):
         return repr(v)
 
 
-def family(variant):
-    a = VARIANTS[variant][0]
+def family_of(a):
     return 'unbounded' if a in UNBOUNDED else 'scipy' if a == 'scipy' else 'bounded'
+
+
+def family(variant):
+    return family_of(VARIANTS[variant][0])
+
+
+def derivative_scales(prob, ref_H, ref_B):
+    gsc = max(1.0, max(abs(v) for row in ref_B for v in row) ** 0.5 * len(prob.obs))
+    hsc = max(1.0, max(abs(v) for row in ref_H for v in row))
+    bsc = max(1.0, max(abs(v) for row in ref_B for v in row))
+    return gsc, hsc, bsc
+
+
+def check_reported_derivatives(viol, prob, perm, data, xs, ref, tag='', when='', with_bhhh=True):
+    """Clause (4): the g / H / BHHH held by a results object are those of the likelihood at ITS estimates xs (template
+    order).  `tag` prefixes the clause name when the same results object is looked at again later in a history."""
+    import numpy as np
+
+    nf = len(prob.free)
+    ref_g, ref_H, ref_B = ref
+    gsc, hsc, bsc = derivative_scales(prob, ref_H, ref_B)
+    g = [None] * nf
+    for pos, v in zip(perm, np.asarray(data.g, dtype=float)):
+        g[pos] = float(v)
+    bad = [i for i in range(nf) if not abs(g[i] - ref_g[i]) <= 1e-9 * gsc]
+    if bad:
+        viol(tag + 'gradient-not-at-estimates', f'reported g {g} != reference gradient at x* {ref_g}{when}', expected=ref_g, observed=g)
+    Hm = np.asarray(data.H, dtype=float)
+    Bm = np.asarray(data.bhhh, dtype=float)
+    Hl = [[float(Hm[perm.index(i)][perm.index(j)]) for j in range(nf)] for i in range(nf)]
+    Bl = [[float(Bm[perm.index(i)][perm.index(j)]) for j in range(nf)] for i in range(nf)]
+    if any(not abs(Hl[i][j] - ref_H[i][j]) <= 1e-9 * hsc for i in range(nf) for j in range(nf)):
+        viol(tag + 'hessian-not-at-estimates', f'reported H {Hl} != reference Hessian at x* {ref_H}{when}', expected=ref_H, observed=Hl)
+    if with_bhhh and any(not abs(Bl[i][j] - ref_B[i][j]) <= 1e-9 * bsc for i in range(nf) for j in range(nf)):
+        viol(tag + 'bhhh-not-at-estimates', f'reported BHHH {Bl} != reference BHHH at x* {ref_B}{when}', expected=ref_B, observed=Bl)
 
 
 def check_run(rec, tpl, rows, prob, refs, bname, lb, ub, bkind, sidx, variant, mode, case, light=False):
@@ -536,6 +585,61 @@ def check_run(rec, tpl, rows, prob, refs, bname, lb, ub, bkind, sidx, variant, m
         rec.case(None, ('raised', type(e).__name__), outcome=('raised', type(e).__name__))
         viol(f'estimation-raised-{type(e).__name__}', f'{type(e).__name__}: {str(e)[:300]}', observed=repr(e)[:300])
         return None
+    out = run_oracles(rec, viol, b, made, r, prob, refs, lb, ub, [start], algo, extra, mode, perm, names_lib, light, variant)
+    if out is None:
+        return None
+    xs, xs_lib, ll_rep, conv, infeasible = out['xs'], out['xs_lib'], out['ll'], out['conv'], out['infeasible']
+    scale = max(1.0, abs(out['ref_ll']))
+    bounded = fam != 'unbounded'
+    # (9) history [estimate(), estimate()] on the same object.  The statement speaks about the formulas only (checked
+    # above); whether the SAME object restarts from the estimates is observed and counted, not demanded.
+    if mode == 'estimate' and not light and sidx == 0 and variant == 'simple_bounds':
+        try:
+            r2 = b.estimate()
+            il2 = r2.data.initLogLike
+            if il2 is not None and _rel(float(il2), ll_rep, scale) <= 1e-9:
+                rec.count('second_estimate_on_same_object_starts_from_the_estimates')
+            else:
+                rec.count('second_estimate_on_same_object_restarts_from_the_original_start(not demanded)')
+            x2 = [None] * nf
+            for pos, v in zip(perm, [float(v) for v in r2.data.betaValues]):
+                x2[pos] = v
+            ref2 = prob.eval(x2, order=0)[0]
+            if not _rel(float(r2.data.logLike), ref2, max(1.0, abs(ref2))) <= 1e-9:
+                viol('second-estimate-loglike-not-the-likelihood-at-estimates', f'second estimate() reports logLike '
+                     f'{float(r2.data.logLike)!r} at {x2}, the likelihood there is {ref2!r}', expected=ref2,
+                     observed=float(r2.data.logLike))
+            rec.count('second_estimates')
+        except Exception as e:  # noqa: BLE001
+            if isinstance(e, RuntimeError):
+                rec.retire = True
+            viol(f'second-estimate-raised-{type(e).__name__}', f'{type(e).__name__}: {str(e)[:300]}', observed=repr(e)[:300])
+    active = out['active']
+    rec.case((case['model'], tuple(case['code']), bname, sidx, variant, mode),
+             (case['model'], case['code'], bname, sidx, variant, mode, [_r(v) for v in xs], _r(ll_rep), conv),
+             outcome=(fam, bkind, conv, active if bounded else None, bool(infeasible), mode))
+    rec.count('estimations')
+    if conv:
+        rec.count('converged')
+    if bounded and any(active):
+        rec.count('runs_ending_on_an_active_bound')
+    if not bounded and infeasible:
+        rec.count('unbounded_algorithm_left_the_box(documented)')
+    return dict(b=b, r=r, xs=xs, xs_lib=xs_lib, ll=ll_rep, conv=conv)
+
+
+def run_oracles(rec, viol, b, made, r, prob, refs, lb, ub, starts, algo, extra, mode, perm, names_lib, light, label,
+                pure=False):
+    """All per-run oracle clauses (1)-(8) for ONE results object `r` just returned by estimate()/quick_estimate() of `b`.
+    `starts`: the candidate starting points of that run over the free parameters in template order (one candidate for a
+    first estimation; in a history on one object the original start and the estimates of every earlier estimate(), the
+    statement does not say which one a re-estimation of the same object uses).  `algo` / `extra`: the algorithm and the
+    options (tolerance, max_iterations) IN FORCE on the object when the run was launched."""
+    import numpy as np
+
+    fam = family_of(algo)
+    nf = len(prob.free)
+    start = starts[0]
     data = r.data
     xs_lib = [float(v) for v in data.betaValues]
     if list(data.betaNames) != names_lib:
@@ -547,7 +651,13 @@ def check_run(rec, tpl, rows, prob, refs, bname, lb, ub, bkind, sidx, variant, m
     conv = bool(data.convergence)
     ll_rep = float(data.logLike)
     ref_ll, ref_g, ref_H, ref_B = prob.eval(xs)
-    ll_start = prob.eval(start, order=0)[0]
+    ll_starts = [prob.eval(s, order=0)[0] for s in starts]
+    ll_start = min(ll_starts)
+    if mode == 'estimate' and data.initLogLike is not None:
+        # the candidate the run says it started from (a single candidate: that one)
+        near = [v for v in ll_starts if _rel(float(data.initLogLike), v, max(1.0, abs(v))) <= 1e-9]
+        if near:
+            ll_start = near[0]
     scale = max(1.0, abs(ref_ll))
     bounded = fam != 'unbounded'
     x_box, ll_box, act_box = refs['box']
@@ -565,16 +675,18 @@ def check_run(rec, tpl, rows, prob, refs, bname, lb, ub, bkind, sidx, variant, m
     if not _rel(ll_rep, ref_ll, scale) <= 1e-9:
         viol('loglike-not-the-likelihood-at-estimates', f'reported logLike {ll_rep!r} but the likelihood at the returned '
              f'estimates {xs} is {ref_ll!r}', expected=ref_ll, observed=ll_rep)
-    lib_ll = float(b.calculate_likelihood(np.array(xs_lib), scaled=False))
-    if not _rel(ll_rep, lib_ll, scale) <= 1e-11:
-        viol('loglike-not-recomputed-by-calculate_likelihood', f'logLike {ll_rep!r} != calculate_likelihood(x*) {lib_ll!r}',
-             expected=lib_ll, observed=ll_rep)
+    if not pure:  # (in an operation history the driver adds no call of its own to the object)
+        lib_ll = float(b.calculate_likelihood(np.array(xs_lib), scaled=False))
+        if not _rel(ll_rep, lib_ll, scale) <= 1e-11:
+            viol('loglike-not-recomputed-by-calculate_likelihood', f'logLike {ll_rep!r} != calculate_likelihood(x*) {lib_ll!r}',
+                 expected=lib_ll, observed=ll_rep)
     # (3) monotonicity and initial value
     if mode == 'estimate':
         il = data.initLogLike
         if il is None or not _rel(float(il), ll_start, max(1.0, abs(ll_start))) <= 1e-9:
             viol('init-loglike-not-the-likelihood-at-start', f'initLogLike {il!r} but the likelihood at the start {start} '
-                 f'is {ll_start!r}', expected=ll_start, observed=il)
+                 f'is {ll_start!r}' + (f' (likelihood at the candidate starts {starts}: {ll_starts})' if len(starts) > 1 else ''),
+                 expected=ll_start if len(starts) == 1 else ll_starts, observed=il)
         if il is not None and ll_rep < float(il) - 1e-9 * scale:
             viol('final-below-initial', f'final logLike {ll_rep!r} < initLogLike {il!r}', expected=f'>= {il}', observed=ll_rep)
     if ll_rep < ll_start - 1e-9 * scale:
@@ -582,23 +694,8 @@ def check_run(rec, tpl, rows, prob, refs, bname, lb, ub, bkind, sidx, variant, m
              expected=f'>= {ll_start}', observed=ll_rep)
     # (4) reported derivatives are those of the likelihood at x*
     if mode == 'estimate':
-        gsc = max(1.0, max(abs(v) for row in ref_B for v in row) ** 0.5 * len(prob.obs))
-        g = [None] * nf
-        for pos, v in zip(perm, np.asarray(data.g, dtype=float)):
-            g[pos] = float(v)
-        bad = [i for i in range(nf) if abs(g[i] - ref_g[i]) > 1e-9 * gsc]
-        if bad:
-            viol('gradient-not-at-estimates', f'reported g {g} != reference gradient at x* {ref_g}', expected=ref_g, observed=g)
-        Hm = np.asarray(data.H, dtype=float)
-        Bm = np.asarray(data.bhhh, dtype=float)
-        hsc = max(1.0, max(abs(v) for row in ref_H for v in row))
-        bsc = max(1.0, max(abs(v) for row in ref_B for v in row))
-        Hl = [[float(Hm[perm.index(i)][perm.index(j)]) for j in range(nf)] for i in range(nf)]
-        Bl = [[float(Bm[perm.index(i)][perm.index(j)]) for j in range(nf)] for i in range(nf)]
-        if any(abs(Hl[i][j] - ref_H[i][j]) > 1e-9 * hsc for i in range(nf) for j in range(nf)):
-            viol('hessian-not-at-estimates', f'reported H {Hl} != reference Hessian at x* {ref_H}', expected=ref_H, observed=Hl)
-        if any(abs(Bl[i][j] - ref_B[i][j]) > 1e-9 * bsc for i in range(nf) for j in range(nf)):
-            viol('bhhh-not-at-estimates', f'reported BHHH {Bl} != reference BHHH at x* {ref_B}', expected=ref_B, observed=Bl)
+        gsc, hsc, bsc = derivative_scales(prob, ref_H, ref_B)
+        check_reported_derivatives(viol, prob, perm, data, xs, (ref_g, ref_H, ref_B))
         if not light:
             fo = b.calculate_likelihood_and_derivatives(np.array(xs_lib), scaled=False, hessian=True, bhhh=True)
             if (not np.allclose(fo.gradient, data.g, rtol=1e-11, atol=1e-11 * gsc)
@@ -616,7 +713,7 @@ def check_run(rec, tpl, rows, prob, refs, bname, lb, ub, bkind, sidx, variant, m
     # typf = max(1,|LL(start)|), i.e. |g_i| <= tau*S (a start with a very low likelihood legitimately loosens it),
     # propagated through the curvature for the value: gap <= 1/2 g'(-H)^-1 g <= K^2*max|(-H)^-1|*(tau*S)^2.
     tau = float(extra.get('tolerance', DEFAULT_TOLERANCE))
-    S = max(1.0, abs(ll_start), abs(ref_ll))
+    S = max(1.0, max(abs(v) for v in ll_starts), abs(ref_ll))
     gtol = max(1e-2 * scale, 1.5 * tau * S)
     if 'tolerance' in extra:
         gtol = min(gtol, 100.0 * tau * S)  # a configured (tight) tolerance must be visible in the returned point
@@ -650,7 +747,7 @@ def check_run(rec, tpl, rows, prob, refs, bname, lb, ub, bkind, sidx, variant, m
              f'maximum {target_ll!r}; cause: {data.optimizationMessages.get("Cause of termination")}', expected='convergence',
              observed=str(data.optimizationMessages.get('Cause of termination')))
     if not conv:
-        rec.count('not_converged:' + variant)
+        rec.count('not_converged:' + label)
     if mi is not None:
         nit = data.optimizationMessages.get('Number of iterations')
         try:
@@ -674,9 +771,10 @@ def check_run(rec, tpl, rows, prob, refs, bname, lb, ub, bkind, sidx, variant, m
                          f'is {xs[i]!r}', expected=xs[i], observed=o.initValue)
             elif o.initValue == start[i] and start[i] != xs[i]:
                 rec.count('quick_estimate_left_the_start_value_in_the_formula(not demanded)')
-            elif o.initValue != xs[i] and o.initValue != start[i]:
+            elif o.initValue != xs[i] and all(o.initValue != s_[i] for s_ in starts):
                 viol('quick-estimate-start-value-corrupted', f'after quick_estimate() Beta {nm} has initValue {o.initValue!r}, '
-                     f'neither the start {start[i]!r} nor the estimate {xs[i]!r}', expected=[start[i], xs[i]], observed=o.initValue)
+                     f'neither the start {[s_[i] for s_ in starts] if len(starts) > 1 else start[i]!r} nor the estimate {xs[i]!r}',
+                     expected=[s_[i] for s_ in starts] + [xs[i]], observed=o.initValue)
     if mode == 'estimate':
         bv = b.get_beta_values()
         for k in prob.free:  # get_beta_values() lists the free parameters only
@@ -684,42 +782,9 @@ def check_run(rec, tpl, rows, prob, refs, bname, lb, ub, bkind, sidx, variant, m
             if bv.get(prob.names[k]) != want:
                 viol('get-beta-values-after-estimation', f'get_beta_values()[{prob.names[k]}] = {bv.get(prob.names[k])!r}, '
                      f'expected {want!r}', expected=want, observed=bv.get(prob.names[k]))
-    # (9) history [estimate(), estimate()] on the same object.  The statement speaks about the formulas only (checked
-    # above); whether the SAME object restarts from the estimates is observed and counted, not demanded.
-    if mode == 'estimate' and not light and sidx == 0 and variant == 'simple_bounds':
-        try:
-            r2 = b.estimate()
-            il2 = r2.data.initLogLike
-            if il2 is not None and _rel(float(il2), ll_rep, scale) <= 1e-9:
-                rec.count('second_estimate_on_same_object_starts_from_the_estimates')
-            else:
-                rec.count('second_estimate_on_same_object_restarts_from_the_original_start(not demanded)')
-            x2 = [None] * nf
-            for pos, v in zip(perm, [float(v) for v in r2.data.betaValues]):
-                x2[pos] = v
-            ref2 = prob.eval(x2, order=0)[0]
-            if not _rel(float(r2.data.logLike), ref2, max(1.0, abs(ref2))) <= 1e-9:
-                viol('second-estimate-loglike-not-the-likelihood-at-estimates', f'second estimate() reports logLike '
-                     f'{float(r2.data.logLike)!r} at {x2}, the likelihood there is {ref2!r}', expected=ref2,
-                     observed=float(r2.data.logLike))
-            rec.count('second_estimates')
-        except Exception as e:  # noqa: BLE001
-            if isinstance(e, RuntimeError):
-                rec.retire = True
-            viol(f'second-estimate-raised-{type(e).__name__}', f'{type(e).__name__}: {str(e)[:300]}', observed=repr(e)[:300])
     active = tuple(1 if (ub[i] is not None and abs(xs[i] - ub[i]) <= 1e-9) else -1 if (lb[i] is not None and abs(xs[i] - lb[i]) <= 1e-9)
                    else 0 for i in range(nf))
-    rec.case((case['model'], tuple(case['code']), bname, sidx, variant, mode),
-             (case['model'], case['code'], bname, sidx, variant, mode, [_r(v) for v in xs], _r(ll_rep), conv),
-             outcome=(fam, bkind, conv, active if bounded else None, bool(infeasible), mode))
-    rec.count('estimations')
-    if conv:
-        rec.count('converged')
-    if bounded and any(active):
-        rec.count('runs_ending_on_an_active_bound')
-    if not bounded and infeasible:
-        rec.count('unbounded_algorithm_left_the_box(documented)')
-    return dict(b=b, r=r, xs=xs, xs_lib=xs_lib, ll=ll_rep, conv=conv)
+    return dict(xs=xs, xs_lib=xs_lib, ll=ll_rep, conv=conv, infeasible=infeasible, active=active, ref_ll=ref_ll)
 
 
 # =========================================================================== bootstrap history
@@ -783,6 +848,10 @@ def check_boot_history(rec, tpl, rows, prob, refs, variant, vecs, case, panel=Fa
     if not _rel(ll_rep, ref_ll, scale) <= 1e-9:
         viol('loglike-not-the-likelihood-at-estimates', f'reported logLike {ll_rep!r}, likelihood of the estimation data at '
              f'x* is {ref_ll!r}', expected=ref_ll, observed=ll_rep)
+    # the derivatives held by the results are those of the estimation data at x* (looked at BEFORE the object is used
+    # again; the reference BHHH sums over rows, the library's over individuals: not compared on panel data)
+    check_reported_derivatives(viol, prob, perm, data, xs, prob.eval(xs)[1:], when=' (results of estimate(run_bootstrap=True))',
+                               with_bhhh=not panel)
     # the likelihood recomputed at the returned estimates
     after = float(b.calculate_likelihood(np.array(xs_lib), scaled=False))
     differs = not _rel(after, ll_rep, scale) <= 1e-9
@@ -837,6 +906,193 @@ def check_boot_history(rec, tpl, rows, prob, refs, variant, vecs, case, panel=Fa
     rec.count('bootstrap_histories')
 
 
+# =========================================================================== operation histories on ONE object
+# The statement is about every estimation, also the n-th one made with the same BIOGEME object after its options
+# were changed, and about what a results object REPORTS, also when it is read after the object has been used again.
+LOOSE = [0.5, 0.3, 0.4, 0.2, 0.5][_A]      # a relative-gradient tolerance met after 0-2 iterations
+TIGHT = [1e-6, 1e-7, 1e-6, 1e-5, 1e-6][_A]
+DEFAULT_MAX_ITERATIONS = 1000
+HIST_OPS = {
+    # E estimate(), Q quick_estimate(), D0/D1 calculate_likelihood_and_derivatives(start / second point, hessian, bhhh),
+    # L1 calculate_likelihood(second point); setters: T tolerance, M max_iterations, A optimization_algorithm
+    'narrow': ['E', 'Q', 'D0', 'T:tight', 'T:loose', 'M:2', 'A:LS-BFGS', 'A:simple_bounds'],
+    'wide': ['E', 'Q', 'D0', 'D1', 'L1', 'T:tight', 'T:loose', 'T:default', 'M:2', 'M:default', 'A:LS-BFGS',
+             'A:simple_bounds', 'A:TR-newton', 'A:scipy', 'A:simple_bounds_BFGS'],
+}
+OBSERVERS = ('E', 'Q', 'D0', 'D1', 'L1')
+
+
+def histories(alphabet, depth):
+    """Every operation sequence of exactly `depth` operations in normal form: it ends with an operation whose effect
+    is observable (a trailing setter is not), contains an estimation, and never sets the same option twice in a row
+    (the first value is overwritten unseen).  Every shorter history is a prefix of one of them and all clauses are
+    checked after every operation, so the set covers all histories of length <= depth."""
+    out = []
+    for h in itertools.product(HIST_OPS[alphabet], repeat=depth):
+        if h[-1] not in OBSERVERS or not any(o in ('E', 'Q') for o in h):
+            continue
+        if any(h[i] not in OBSERVERS and h[i + 1] not in OBSERVERS and h[i][0] == h[i + 1][0] for i in range(depth - 1)):
+            continue
+        out.append(list(h))
+    return out
+
+
+def check_history(rec, tpl, rows, prob, refs, bname, lb, ub, bkind, init, sidx, ops, case):
+    """Runs the operations `ops` on ONE BIOGEME object built with init = (algorithm, tolerance or None).
+    After every estimation: all per-run clauses with the options in force at that moment.  After every operation: every
+    results object obtained earlier in the history still reports the likelihood / g / H / BHHH at its own estimates."""
+    import numpy as np
+
+    nf = len(prob.free)
+    algo0, tol0 = init
+    start = clip_start(STARTS[sidx][:nf], lb, ub)
+    p1 = clip_start(STARTS[(sidx + 1) % 3][:nf], lb, ub)
+    b, made = build_biogeme(tpl, rows, start, lb, ub, algo0, overrides=(None if tol0 is None else dict(tolerance=tol0)))
+    names_lib = list(b.free_beta_names)
+    free_names = [prob.names[k] for k in prob.free]
+    perm = [free_names.index(nm) for nm in names_lib]
+    to_lib = lambda x: np.array([float(x[pos]) for pos in perm])
+    cur = dict(algo=algo0, extra=({} if tol0 is None else dict(tolerance=tol0)))
+    starts = [start]
+    held = []        # results objects obtained so far
+    changed = set()  # kinds of options set since the previous estimation
+    nrun = 0
+    done = []
+    summary = []
+    ctx = lambda: (f'[model={case["model"]} table={case["code"]} bounds={bname} lb={lb} ub={ub} start={start} '
+                   f'object built with algorithm={algo0} tolerance={tol0}; history so far={done}]')
+
+    def later(clause, what, expected=None, observed=None):
+        rec.violation(f'C07|earlier-results:{clause}|later-op={done[-1][0]}', f'earlier-results:{clause}: {what} {ctx()}', case,
+                      expected=expected, observed=observed)
+
+    for t, op in enumerate(ops):
+        done.append(op)
+        kind = op[0]
+        try:
+            if kind in 'EQ':
+                mode = 'estimate' if kind == 'E' else 'quick_estimate'
+                nrun += 1
+                algo, extra = cur['algo'], dict(cur['extra'])
+                fam = family_of(algo)
+                pattern = ('run1' if nrun == 1 else 'run2+') + ('+set:' + ''.join(sorted(changed)) if changed else '')
+
+                def viol(clause, what, expected=None, observed=None):
+                    rec.violation(f'C07|{clause}|family={fam}|bounds={bkind}|history={pattern}',
+                                  f'{clause}: {what} [entry={mode} with algorithm={algo} options={extra}] {ctx()}', case,
+                                  expected=expected, observed=observed)
+
+                if fam == 'scipy' and 'max_iterations' in extra:
+                    # algo_parameters is None for scipy: max_iterations is a parameter of the biogeme algorithms only
+                    extra.pop('max_iterations')
+                    rec.count('history_scipy_run_with_max_iterations_set(not forwarded, not demanded)')
+                r = b.estimate() if kind == 'E' else b.quick_estimate()
+                out = run_oracles(rec, viol, b, made, r, prob, refs, lb, ub, list(starts), algo, extra, mode, perm, names_lib,
+                                  True, 'history:' + algo, pure=True)
+                rec.count('history_estimations')
+                if nrun > 1 and changed:
+                    rec.count('history_reestimations_after_an_option_change')
+                changed = set()
+                if out is None:
+                    break
+                if out['conv']:
+                    rec.count('history_converged')
+                    g = prob.eval(out['xs'], order=1)[1]
+                    if extra.get('tolerance') == LOOSE and fam != 'scipy' and max(abs(v) for v in g) > 1e-2 * max(1.0, abs(out['ref_ll'])):
+                        rec.count('history_loose_tolerance_runs_stopping_away_from_the_maximum')
+                if kind == 'E' and out['xs'] not in starts:
+                    starts.append(list(out['xs']))
+                held.append(dict(r=r, mode=mode, at=t, xs_lib=[float(v) for v in r.data.betaValues]))
+                summary.append((op, [_r(v) for v in out['xs']], _r(out['ll']), out['conv']))
+                first_new = len(held) - 1
+            else:
+                first_new = len(held)
+                if op == 'D0':
+                    b.calculate_likelihood_and_derivatives(to_lib(start), scaled=False, hessian=True, bhhh=True)
+                elif op == 'D1':
+                    b.calculate_likelihood_and_derivatives(to_lib(p1), scaled=False, hessian=True, bhhh=True)
+                elif op == 'L1':
+                    b.calculate_likelihood(to_lib(p1), scaled=False)
+                elif kind == 'T':
+                    v = dict(tight=TIGHT, loose=LOOSE, default=DEFAULT_TOLERANCE)[op[2:]]
+                    b.tolerance = v
+                    cur['extra']['tolerance'] = v
+                    changed.add('T')
+                elif kind == 'M':
+                    v = 2 if op == 'M:2' else DEFAULT_MAX_ITERATIONS
+                    b.max_iterations = v
+                    cur['extra']['max_iterations'] = v
+                    changed.add('M')
+                elif kind == 'A':
+                    b.optimization_algorithm = op[2:]
+                    cur['algo'] = op[2:]
+                    changed.add('A')
+                else:
+                    raise RuntimeError(f'harness: unknown operation {op}')
+        except Exception as e:  # noqa: BLE001
+            if isinstance(e, RuntimeError):
+                if str(e).startswith('harness:'):
+                    raise
+                rec.retire = True
+            rec.violation(f'C07|history-operation-raised-{type(e).__name__}|op={kind}', f'operation {op} raised {type(e).__name__}: '
+                          f'{str(e)[:300]} {ctx()}', case, observed=repr(e)[:300])
+            summary.append((op, 'raised', type(e).__name__))
+            break
+        # every results object obtained BEFORE this operation must still report what the statement says
+        for h in held[:first_new]:
+            data = h['r'].data
+            now = [float(v) for v in data.betaValues]
+            when = f' (results of operation #{h["at"] + 1} read after operation #{t + 1}={op})'
+            if now != h['xs_lib']:
+                later('estimates-changed', f'betaValues were {h["xs_lib"]}, are now {now}{when}', expected=h['xs_lib'], observed=now)
+            xs = [None] * nf
+            for pos, v in zip(perm, now):
+                xs[pos] = v
+            ref_ll, ref_g, ref_H, ref_B = prob.eval(xs)
+            if not _rel(float(data.logLike), ref_ll, max(1.0, abs(ref_ll))) <= 1e-9:
+                later('loglike-not-the-likelihood-at-estimates', f'logLike {float(data.logLike)!r}, the likelihood at its estimates '
+                      f'{xs} is {ref_ll!r}{when}', expected=ref_ll, observed=float(data.logLike))
+            if h['mode'] == 'estimate':
+                check_reported_derivatives(later, prob, perm, data, xs, (ref_g, ref_H, ref_B), when=when)
+            rec.count('history_rechecks_of_earlier_results')
+    rec.case(('hist', case['model'], tuple(case['code']), bname, tuple(init), sidx, tuple(ops)),
+             ('hist', case['model'], case['code'], bname, list(init), sidx, list(ops), summary),
+             outcome=('hist', family_of(algo0), bkind, tuple(x[-1] for x in summary)))
+    rec.count('histories')
+
+
+def hist_plan(tier):
+    """(model, rows, step through the table family, alphabet, depth, parts) of the history part."""
+    if tier == 'quick':
+        return [('L2', 5, 3, 'narrow', 3, 2), ('N2', 3, 3, 'narrow', 3, 2), ('L3G', 4, 8, 'narrow', 3, 2)]
+    return [('L2', 5, 3, 'wide', 3, 4), ('N2', 3, 3, 'wide', 3, 4), ('L3G', 4, 8, 'wide', 3, 4), ('L2F', 5, 8, 'wide', 3, 4),
+            ('L3', 5, 60, 'wide', 3, 4),
+            ('L2', 5, 8, 'narrow', 4, 6), ('N3', 3, 7, 'narrow', 4, 6), ('L3G', 4, 20, 'narrow', 4, 6)]
+
+
+def _hist_table(rec, task, tpl, rows, prob, xfree, base):
+    k = task['k']
+    tier = task['tier']
+    cfgs = bound_configs(xfree, 'quick', k)
+    # the bound configuration, the algorithm and the tolerance the object is built with rotate with the table
+    bname, lb, ub, bkind = [c for c in cfgs if c[0] == 'none' or c[3] == 'active'][(k // 2) % 3]
+    refs = references(prob, lb, ub, xfree)
+    if bkind == 'active' and not any(refs['box'][2]):
+        raise RuntimeError(f'harness: bound configuration {bname} is not active at the reference optimum')
+    inits = [(ALGOS[k % len(ALGOS)], (None, LOOSE)[k % 2])]
+    if tier == 'thorough' and task['depth'] <= 3:
+        inits.append((ALGOS[(k + 4) % len(ALGOS)], (LOOSE, TIGHT)[k % 2]))
+    hs = histories(task['alphabet'], task['depth'])
+    part, parts = task['hpart']
+    for init in inits:
+        for ops in hs[part::parts]:
+            case = dict(base, part='hist', bname=bname, lb=lb, ub=ub, bkind=bkind, init=list(init), sidx=k % 3, ops=ops)
+            check_history(rec, tpl, rows, prob, refs, bname, lb, ub, bkind, init, k % 3, ops, case)
+    if part == 0:
+        rec.sample(dict(base, part='hist', bname=bname, inits=[list(i) for i in inits], alphabet=task['alphabet'],
+                        depth=task['depth'], histories=len(hs) * len(inits)))
+
+
 # =========================================================================== tasks
 def model_plan(tier):
     """(model, rows in the table) per tier; the table family is ALL codes over those rows."""
@@ -872,6 +1128,17 @@ def tasks(tier, seed):
         step = 4 if tier == 'quick' else (2 if nsymbols(tpl) == 2 else 9)
         for i in range(0, len(codes), step):
             out.append(dict(part='boot', panel=True, model=model, nrows=6, first=i, codes=[list(codes[i])], tier=tier))
+    # operation histories on one object: tables of a sub-family x (bounds, algorithm, tolerance at construction) x every
+    # history in normal form of the given depth over the operation alphabet
+    k = 0
+    for model, nrows, step, alphabet, depth, parts in hist_plan(tier):
+        tpl = T[model]
+        codes = list(itertools.product(range(nsymbols(tpl)), repeat=nrows))
+        for i in range(step // 2, len(codes), step):
+            for part in range(parts):
+                out.append(dict(part='hist', model=model, nrows=nrows, first=i, codes=[list(codes[i])], tier=tier, k=k,
+                                alphabet=alphabet, depth=depth, hpart=[part, parts]))
+            k += 1
     return out
 
 
@@ -900,6 +1167,9 @@ def run_task(task):
         base = dict(model=task['model'], nrows=task['nrows'], code=list(code))
         if task['part'] == 'boot':
             _boot_table(rec, tpl, rows, prob, xfree, base, ti, tier, panel=bool(task.get('panel')))
+            continue
+        if task['part'] == 'hist':
+            _hist_table(rec, task, tpl, rows, prob, xfree, base)
             continue
         full = (ti % 4 == 0)
         cfgs = bound_configs(xfree, tier, ti)
@@ -965,6 +1235,10 @@ def replay(case):
         nf = len(prob.free)
         refs = references(prob, [None] * nf, [None] * nf, xfree)
         check_boot_history(rec, tpl, rows, prob, refs, case['variant'], case['vecs'], case, panel=bool(case.get('panel')))
+    elif case['part'] == 'hist':
+        refs = references(prob, case['lb'], case['ub'], xfree)
+        check_history(rec, tpl, rows, prob, refs, case['bname'], case['lb'], case['ub'], case['bkind'], tuple(case['init']),
+                      case['sidx'], case['ops'], case)
     else:
         refs = references(prob, case['lb'], case['ub'], xfree)
         check_run(rec, tpl, rows, prob, refs, case['bname'], case['lb'], case['ub'], case['bkind'], case['sidx'],
@@ -977,7 +1251,9 @@ def finalize(agg, tier, seed):
     """Vacuity guards (harness errors, not violations): the space must really contain converged runs, runs that end
     on an active bound, documented box-leaving runs of the unbounded algorithms and bootstrap histories."""
     need = ['estimations', 'converged', 'runs_ending_on_an_active_bound', 'unbounded_algorithm_left_the_box(documented)',
-            'bootstrap_histories', 'tables_accepted', 'second_estimates']
+            'bootstrap_histories', 'tables_accepted', 'second_estimates', 'histories', 'history_estimations',
+            'history_reestimations_after_an_option_change', 'history_rechecks_of_earlier_results',
+            'history_loose_tolerance_runs_stopping_away_from_the_maximum']
     for n in need:
         if agg.counts.get(n, 0) == 0 and not agg.harness_errors:
             agg.harness_errors.append((f'vacuous exploration: counter {n} is zero', {}))
